@@ -77,6 +77,39 @@ GlmStationary(link, pn, pd, x, yS, w6, b6, an, ad, icpt, allow) ==
   /\ icpt => Stationary(IvNeg(IvSum(tm)), allow)
   /\ ~icpt => b6 = 0
 
+\* ---- targets measured in another unit (log link, with intercept) ------------------------------------------
+\* The case's targets are y = u * y1 with u = 2^ue (exact in binary floating point). For the log link mu = u * mu1 with
+\* eta1 = eta - ue ln 2, i.e. the unit only shifts the intercept; the per-sample term of the gradient is
+\* u^(2-p) * term1 (the deviance of power p scales with u^(2-p); Gamma, p = 2, is unit free). The relation is
+\* evaluated on the unit-1 quantities (y1, eta1) and the factor 2^k, k = ue (2 - p), is applied to the enclosures:
+\*     gradient_j = - 2^k sum_i term1_i x_ij + alpha w_j .
+\* For k >= 0 the component is judged on the scale of its data term (both sides divided by 2^k), for k < 0 as it is.
+Ln2S6 == 693147                                   \* ln 2 at scale 10^6 (error < 0.2 units per unit of ue)
+Pow2(k) == 2 ^ k                                  \* 0 <= k <= 30
+RECURSIVE IvShiftDown(_, _)
+IvShiftDown(a, m) == IF m <= 0 THEN a ELSE IF m >= 10 THEN IvShiftDown(IvDivInt(a, 1024), m - 10)
+                     ELSE IvDivInt(a, Pow2(m))
+\* unit-1 linear predictor of a row (the extra unit of widening covers the rounding of ue * ln 2)
+ZIvU(row, w6, b6, ue) == IF ue = 0 THEN ZIv(row, w6, b6) ELSE IvWiden(ZIv(row, w6, b6 - ue * Ln2S6), 1)
+\* k = ue (2 - p) for p = pn/pd (ue is a multiple of 10, pd in {1, 2})
+UnitExp(ue, pn, pd) == (ue * (2 * pd - pn)) \div pd
+GlmDomainOkU(link, pn, x, w6, b6, ue) == \A q \in 1..Len(x) : EtaInDomain(link, pn, ZIvU(x[q], w6, b6, ue))
+\* allowNum: numerical allowance, tolU: solver tolerance, both in units of 10^-4 of the gradient in the case's unit
+GlmStationaryU(link, pn, pd, x, y1S, w6, b6, an, ad, icpt, allowNum, tolU, ue) ==
+  LET k == UnitExp(ue, pn, pd)
+      tm == [q \in 1..Len(x) |-> TermIv(link, pn, pd, ZIvU(x[q], w6, b6, ue), y1S[q])]
+      Comb(d, aw) == IF k >= 0 THEN IvAdd(d, IvShiftDown(aw, k)) ELSE IvAdd(IvShiftDown(d, -k), aw)
+      allow == IF k >= 0 THEN allowNum + CeilDiv(tolU, Pow2(k)) ELSE allowNum + tolU
+  IN /\ \A j \in 1..Len(w6) :
+          Stationary(Comb(IvNeg(IvSum([q \in 1..Len(x) |-> IvScale(tm[q], x[q][j])])), AlphaW(an, ad, w6[j])), allow)
+     /\ icpt => Stationary(Comb(IvNeg(IvSum(tm)), IvPt(0)), allow)
+     /\ ~icpt => b6 = 0
+\* prediction in the case's unit: mu = 2^ue * mu1
+MuIvU(link, eta1, ue) ==
+  LET m1 == MuIv(link, eta1) IN
+  IF ue >= 0 THEN IvScale(m1, Pow2(ue)) ELSE IvShiftDown(m1, -ue)
+GlmPredOkU(link, row, w6, b6, ue, m4) == IvIn(m4, IvWiden(MuIvU(link, ZIvU(row, w6, b6, ue), ue), 1))
+
 \* prediction for a query row: mu = h(eta), observed at scale 10^4
 GlmPredOk(link, row, w6, b6, m4) == IvIn(m4, IvWiden(MuIv(link, ZIv(row, w6, b6)), 1))
 \* predictions lie in the link's range (order keys of the implementation's floats; finite is checked separately)
@@ -131,6 +164,20 @@ InvOriginLog ==
      \* the penalty acts on w with weight alpha (objective 1/2 (dev + alpha |w|^2)): at w = 1, y = mu = e^x it is the whole gradient
      /\ g.x = 0 => /\ ~GlmStationary("log", g.pn, g.pd, x, <<S>>, <<1000000>>, 0, 1, 1, FALSE, 6)
                    /\ GlmStationary("log", g.pn, g.pd, x, <<S>>, <<1000000>>, 0, 0, 1, FALSE, 0)
+\* units: with ue = 0 the unit-aware relation is the plain one; a change of unit (intercept shifted by ue ln 2) keeps a
+\* stationary point stationary and a clearly non-stationary one non-stationary for the Gamma family (unit free), and
+\* for k < 0 the data term is damped by 2^k (everything with a tiny data gradient and no penalty passes)
+InvUnits ==
+  g.link = "log" =>
+     LET x == << <<g.x>> >>  ys == <<YS>> IN
+     /\ GlmStationaryU("log", g.pn, g.pd, x, ys, <<0>>, 0, 0, 1, TRUE, 6, 0, 0)
+          <=> GlmStationary("log", g.pn, g.pd, x, ys, <<0>>, 0, 0, 1, TRUE, 6)
+     /\ \A ue \in {-30, -10, 10} :
+          /\ YS = S => GlmStationaryU("log", g.pn, g.pd, x, ys, <<0>>, ue * Ln2S6, 0, 1, TRUE, 6, 1, ue)
+          /\ (g.pn = 2 /\ Abs(YS - S) > 100) => ~GlmStationaryU("log", 2, 1, x, ys, <<0>>, ue * Ln2S6, 0, 1, TRUE, 6, 1, ue)
+     /\ (g.pn = 1 /\ g.pd = 1) => GlmStationaryU("log", 1, 1, x, ys, <<0>>, -30 * Ln2S6, 0, 1, TRUE, 6, 1, -30)
+     /\ UnitExp(-30, 3, 1) = 30 /\ UnitExp(-20, 3, 2) = -10 /\ UnitExp(10, 2, 1) = 0 /\ UnitExp(-10, 1, 1) = -10
+
 ASSUME SupportTable ==
   /\ InSupport(0, 1, -S) /\ InSupport(0, 1, 0)
   /\ ~InSupport(1, 1, -1) /\ InSupport(1, 1, 0) /\ InSupport(3, 2, 0) /\ ~InSupport(3, 2, -2500)
